@@ -28,6 +28,7 @@
  */
 #ifndef C02_MODEL_H_
 #define C02_MODEL_H_
+#include "faultmalloc.h"
 #include "vp.h"
 #include "tape.h"
 #include "umem_count.h"
@@ -58,6 +59,8 @@ enum { CL_REFUSED_SHARED, CL_GRANTED_AFTER_FREE, CL_GRANTED_FRESH, CL_MULTISEG_S
     "multi_segment_handle_sharing_area", "undecided_state_granted", "undecided_state_refused", \
     "handle_sliced_internally", "hidden_reference_while_shared", "prepend_ok", "negative_offset", \
     "pool_depth_gt0", "align_gt0", "copy_made", "empty_handle"
+#define C2_FAULT_CLASS_NAMES "allocation_refused_inside_operation", "operation_failed_after_refused_allocation"
+#define C2_FAULT_CLASSES(rep, c, bit) do { if ((c)->nfaults) (rep)->classes |= 1ull << (bit); if ((c)->nfault_failed) (rep)->classes |= 1ull << ((bit) + 1); } while (0)
 #define C2_PLANAR_CLASS_NAMES \
     "plane_reexported_as_block", "plane_write_refused_because_shared", "plane_write_granted_after_siblings_freed", \
     "block_write_refused_because_plane_handle_alive", "plane_write_refused_because_reexported_block_alive", \
@@ -96,11 +99,35 @@ struct c2_ctx {
     /* executor hook: complete read-back of a picture / sound handle */
     void (*planar_check)(struct c2_ctx *c, int hi, const char *after);
     char leakmsg[200];
+    bool faultmode, fault_failed;
+    unsigned nfaults, nfault_failed;
 };
+
+/* fault mode (chosen by the configuration octet): the operations whose octet is >= 128 run with their 1st..4th allocation refused */
+static inline void c2_fault_begin(struct c2_ctx *c, uint8_t opbyte)
+{
+    c->fault_failed = false;
+    vp_fault_arm(c->faultmode && opbyte >= 128 ? 1 + (opbyte / 32) % 4 : 0);
+}
+
+/* returns the handle to check from: after a refused allocation every handle is compared with its model, whatever the operation answered */
+static inline int c2_fault_end(struct c2_ctx *c, int hi)
+{
+    vp_fault_disarm();
+    if (!vp_fault_refused()) return hi;
+    c->nfaults++; if (c->fault_failed) c->nfault_failed++;
+    c->hash = vp_hash_mix(c->hash, 0xfa17);
+    if (c->render) vp_render(c->rep, "    (an allocation inside the operation was refused%s)\n", c->fault_failed ? ": the operation failed" : "");
+    if (hi < 0) for (int i = 0; i < C2_MAXH; i++) if (c->h[i].kind != 0) { hi = i; break; }
+    return hi;
+}
 
 #define R(...) do { if (c->render) vp_render(c->rep, __VA_ARGS__); } while (0)
 #define FAIL(key, ...) do { if (!c->ret) c->ret = vp_fail(c->rep, key, __VA_ARGS__); } while (0)
 #define CL(bit) (c->cl |= 1u << (bit))
+/* allocation fault injection (engine/faultmalloc.h): an operation inside which an allocation was refused may fail; it must
+ * then leave every handle of the family -- content, size and who may write -- exactly as it was */
+#define DOMFAIL(key, ...) do { if (vp_fault_refused()) c->fault_failed = true; else FAIL(key, __VA_ARGS__); } while (0)
 #define ABIT(a) (1ULL << (a))
 
 static inline uint8_t c2_rnd(struct c2_ctx *c) { c->pat = c->pat * 1103515245u + 12345u; return c->pat >> 16; }
@@ -423,7 +450,7 @@ static inline int c2_op_alloc(struct c2_ctx *c, char *what, size_t wn)
     struct c2_hnd *h = &c->h[slot];
     struct ubuf *u = ubuf_block_alloc(c->block_mgr, size);
     snprintf(what, wn, "h%d=block_alloc(%d)+fill [area a%d]", slot, size, X);
-    if (!u) { R("  %s -> NULL\n", what); FAIL("C02/domain/alloc", "ubuf_block_alloc(%d) failed", size); return -1; }
+    if (!u) { R("  %s -> NULL\n", what); DOMFAIL("C02/domain/alloc", "ubuf_block_alloc(%d) failed", size); return -1; }
     c2_block_init(h, u);
     h->n = size; h->may = ABIT(X); h->head_area = X;
     memset(h->wild, 1, size); memset(h->area, X, size);
@@ -449,7 +476,7 @@ static inline int c2_op_dup(struct c2_ctx *c, char *what, size_t wn)
     snprintf(what, wn, "h%d=dup(h%d)", slot, s);
     struct ubuf *u = ubuf_dup(a->u);
     R("  %s -> %s\n", what, u ? "ok" : "NULL");
-    if (!u) { FAIL("C02/domain/dup", "ubuf_dup fails"); return -1; }
+    if (!u) { DOMFAIL("C02/domain/dup", "ubuf_dup fails"); return -1; }
     c2_block_init(h, u);
     h->n = a->n; memcpy(h->m, a->m, a->n); memcpy(h->wild, a->wild, a->n); memcpy(h->area, a->area, a->n);
     h->may = a->may; h->multi = a->multi; h->head_area = a->head_area;
@@ -469,7 +496,7 @@ static inline int c2_op_splice(struct c2_ctx *c, char *what, size_t wn)
     snprintf(what, wn, "h%d=splice(h%d,%lld,%d)", slot, s, (long long)aoff, sz);
     struct ubuf *u = ubuf_block_splice(a->u, aoff, sz);
     R("  %s -> %s\n", what, u ? "ok" : "NULL");
-    if (!u) { FAIL("C02/domain/splice", "%s inside a block of %zu octets fails", what, a->n); return -1; }
+    if (!u) { DOMFAIL("C02/domain/splice", "%s inside a block of %zu octets fails", what, a->n); return -1; }
     if (neg) CL(CL_NEGOFF);
     size_t want = sz == -1 ? a->n - off : (size_t)sz;
     c2_block_init(h, u);
@@ -492,7 +519,7 @@ static inline int c2_op_split(struct c2_ctx *c, char *what, size_t wn)
     snprintf(what, wn, "h%d=split(h%d,%lld)", slot, s, (long long)aoff);
     struct ubuf *u = ubuf_block_split(a->u, aoff);
     R("  %s -> %s\n", what, u ? "ok" : "NULL");
-    if (!u) { FAIL("C02/domain/split", "%s inside a block of %zu octets fails", what, a->n); return -1; }
+    if (!u) { DOMFAIL("C02/domain/split", "%s inside a block of %zu octets fails", what, a->n); return -1; }
     if (neg) CL(CL_NEGOFF);
     c2_block_init(h, u);
     h->n = a->n - off; memcpy(h->m, a->m + off, h->n); memcpy(h->wild, a->wild + off, h->n); memcpy(h->area, a->area + off, h->n);
@@ -523,7 +550,7 @@ static inline int c2_op_join(struct c2_ctx *c, bool insert, char *what, size_t w
         err = ubuf_block_append(a->u, b->u);
     }
     R("  %s -> %d\n", what, err);
-    if (!ubase_check(err)) { FAIL(insert ? "C02/domain/insert" : "C02/domain/append", "%s fails (%zu octets)", what, a->n); return -1; }
+    if (!ubase_check(err)) { DOMFAIL(insert ? "C02/domain/insert" : "C02/domain/append", "%s fails (%zu octets)", what, a->n); return -1; }
     /* references: the inserted chain now belongs to a; a segment of a was cut at off */
     uint64_t cut = 0;
     if (insert) { cut = ABIT(a->area[off]); if (off > 0) cut |= ABIT(a->area[off - 1]); }
@@ -547,7 +574,7 @@ static inline int c2_op_delete(struct c2_ctx *c, char *what, size_t wn)
     snprintf(what, wn, "delete(h%d,%zu,%d)", ai, off, sz);
     int err = ubuf_block_delete(a->u, off, sz);
     R("  %s -> %d\n", what, err);
-    if (!ubase_check(err)) { FAIL("C02/domain/delete", "%s inside a block of %zu octets fails", what, a->n); return -1; }
+    if (!ubase_check(err)) { DOMFAIL("C02/domain/delete", "%s inside a block of %zu octets fails", what, a->n); return -1; }
     size_t d = sz == -1 ? a->n - off : (size_t)sz;
     /* a cut strictly inside a run of one area may slice the segment: a second reference
      * (also for an empty range: the implementation slices at off) */
@@ -568,7 +595,7 @@ static inline int c2_op_truncate(struct c2_ctx *c, char *what, size_t wn)
     snprintf(what, wn, "truncate(h%d,%zu)", ai, off);
     int err = ubuf_block_truncate(a->u, off);
     R("  %s -> %d\n", what, err);
-    if (!ubase_check(err)) { FAIL("C02/domain/truncate", "%s inside a block of %zu octets fails", what, a->n); return -1; }
+    if (!ubase_check(err)) { DOMFAIL("C02/domain/truncate", "%s inside a block of %zu octets fails", what, a->n); return -1; }
     a->n = off;
     return ai;
 }
@@ -586,7 +613,7 @@ static inline int c2_op_resize(struct c2_ctx *c, char *what, size_t wn)
     snprintf(what, wn, "resize(h%d,%lld,%d)", ai, (long long)aoff, sz);
     int err = ubuf_block_resize(a->u, aoff, sz);
     R("  %s -> %d\n", what, err);
-    if (!ubase_check(err)) { FAIL("C02/domain/resize", "%s inside a block of %zu octets fails", what, a->n); return -1; }
+    if (!ubase_check(err)) { DOMFAIL("C02/domain/resize", "%s inside a block of %zu octets fails", what, a->n); return -1; }
     if (neg) CL(CL_NEGOFF);
     size_t ns = sz == -1 ? a->n - off : (size_t)sz;
     memmove(a->m, a->m + off, ns); memmove(a->wild, a->wild + off, ns); memmove(a->area, a->area + off, ns);
@@ -666,7 +693,7 @@ static inline int c2_op_copy(struct c2_ctx *c, char *what, size_t wn)
     snprintf(what, wn, "h%d=block_copy(h%d,0,-1) [area a%d]", slot, s, X);
     struct ubuf *u = ubuf_block_copy(c->block_mgr, a->u, 0, -1);
     R("  %s -> %s\n", what, u ? "ok" : "NULL");
-    if (!u) { FAIL("C02/domain/copy", "%s of %zu octets fails", what, a->n); return -1; }
+    if (!u) { DOMFAIL("C02/domain/copy", "%s of %zu octets fails", what, a->n); return -1; }
     c2_block_init(h, u);
     h->n = a->n; memcpy(h->m, a->m, a->n); memcpy(h->wild, a->wild, a->n); memset(h->area, X, a->n);
     h->may = ABIT(X); h->head_area = X;
@@ -696,7 +723,7 @@ static inline int c2_op_merge(struct c2_ctx *c, char *what, size_t wn)
         if (ubase_check(err)) FAIL("C02/domain/merge", "%s beyond the end of a block of %zu octets succeeded", what, a->n);
         return ai;                              /* c2_check_all reads the handle back: it must be unchanged and alive */
     }
-    if (!ubase_check(err)) { FAIL("C02/domain/merge", "%s inside a block of %zu octets fails", what, a->n); return -1; }
+    if (!ubase_check(err)) { DOMFAIL("C02/domain/merge", "%s inside a block of %zu octets fails", what, a->n); return -1; }
     int X = c2_new_area(c);
     size_t ns = sz == -1 ? a->n - off : (size_t)sz;
     memmove(a->m, a->m + off, ns); memmove(a->wild, a->wild + off, ns);
